@@ -61,6 +61,8 @@ pub fn generate(prop: &str, seed: u64, idx: u64, tier: Tier) -> Plan {
     if r.chance(25) {
         p.knobs.insert("ans_late_ms".into(), *r.pick(&[1i64, 40, 400, 3000, 9000]));
     }
+    // how the data channels come about (only read by configurations that have one)
+    p.knobs.insert("dc_inband".into(), *r.pick(&[0i64, 0, 1, 2, 2, 3]));
     p
 }
 
@@ -81,12 +83,36 @@ pub async fn run(ctx: &Ctx) {
     ctx.net.install_binder();
     let mut a = Peer::new(ctx, &k, 0);
     let mut b = Peer::new(ctx, &k, 1);
-    let fail = |what: String| ctx.violate("C10.connect", format!("{what} [mode={} mix={} bundle={} mux={} lite={} udpmux={} latch={} compat={} offerer={} sig_delay_ms={} ans_late_ms={}]", k.mode, k.mix, k.bundle, k.mux, k.lite, k.udpmux, k.latch, k.compat, k.offerer, ctx.plan.knob("sig_delay_ms", 0), ctx.plan.knob("ans_late_ms", 0)));
+    let dc_inband = ctx.plan.knob("dc_inband", 0);
+    // channels announced to each application (PeerConnectionEvent::DataChannel)
+    let announced: [Arc<Mutex<Vec<Arc<rustrtc::transports::sctp::DataChannel>>>>; 2] = [Arc::new(Mutex::new(Vec::new())), Arc::new(Mutex::new(Vec::new()))];
+    let mut ev_tasks = Vec::new();
+    if dc_inband != 0 {
+        for (i, p) in [&a, &b].into_iter().enumerate() {
+            let pc = p.pc.clone();
+            let list = announced[i].clone();
+            ev_tasks.push(tokio::spawn(vh::wrap_task(async move {
+                while let Some(ev) = pc.recv().await {
+                    if let rustrtc::PeerConnectionEvent::DataChannel(dc) = ev {
+                        list.lock().unwrap().push(dc);
+                    }
+                }
+            })));
+        }
+    }
+    let fail = |what: String| ctx.violate("C10.connect", format!("{what} [mode={} mix={} bundle={} mux={} lite={} udpmux={} latch={} compat={} offerer={} sig_delay_ms={} ans_late_ms={} dc_inband={}]", k.mode, k.mix, k.bundle, k.mux, k.lite, k.udpmux, k.latch, k.compat, k.offerer, ctx.plan.knob("sig_delay_ms", 0), ctx.plan.knob("ans_late_ms", 0), ctx.plan.knob("dc_inband", 0)));
     {
         let (off, ans) = if k.offerer == 0 { (&mut a, &mut b) } else { (&mut b, &mut a) };
         if k.has_dc() {
-            off.add_dc(true);
-            ans.add_dc(true);
+            // dc_inband: 0 both sides pre-negotiate stream 0; 1 only the offerer opens a channel (in-band, DCEP);
+            // 2 both open an in-band channel, the answerer between applying the offer and creating its answer;
+            // 3 both in-band, the answerer once connected
+            if dc_inband == 0 {
+                off.add_dc(true);
+                ans.add_dc(true);
+            } else {
+                off.add_dc(false);
+            }
         }
         off.add_media(&k);
         match negotiate(off, ans, &k, ctx).await {
@@ -114,8 +140,62 @@ pub async fn run(ctx: &Ctx) {
             return;
         }
     }
+    // in-band channels: each application sends on the channel it opened; the peer must have been told about that
+    // channel (same stream id) and receive the message intact on it
+    if k.has_dc() && dc_inband != 0 {
+        if dc_inband == 3 {
+            let ans = if k.offerer == 0 { &mut b } else { &mut a };
+            ans.add_dc(false);
+        }
+        let openers: Vec<usize> = if dc_inband == 1 { vec![k.offerer as usize] } else { vec![0, 1] };
+        let peers = [&a, &b];
+        let ids: Vec<Option<u16>> = peers.iter().map(|p| p.dc.as_ref().map(|d| d.id)).collect();
+        if openers.len() == 2 && ids[0].is_some() && ids[0] == ids[1] {
+            fail(format!("both applications were given the same stream id {} for the channels they opened themselves", ids[0].unwrap()));
+        }
+        for &x in &openers {
+            let y = 1 - x;
+            let tag = if x == 0 { "A>B" } else { "B>A" };
+            let Some(dtx) = peers[x].dc.clone() else {
+                fail(format!("create_data_channel (in-band) failed on {}", peers[x].name));
+                continue;
+            };
+            let msg = format!("hello in-band {tag} {}", ctx.plan.seed).into_bytes();
+            let list = announced[y].clone();
+            let txpc = &peers[x].pc;
+            let r = tokio::time::timeout(Duration::from_secs(60), async {
+                while dtx.state.load(std::sync::atomic::Ordering::SeqCst) != rustrtc::DataChannelState::Open as usize {
+                    tokio::time::sleep(Duration::from_millis(10)).await;
+                }
+                txpc.send_data(dtx.id, &msg).await.map_err(|e| format!("send_data: {e}"))?;
+                let drx = loop {
+                    if let Some(d) = list.lock().unwrap().iter().find(|d| d.id == dtx.id).cloned() {
+                        break d;
+                    }
+                    tokio::time::sleep(Duration::from_millis(10)).await;
+                };
+                loop {
+                    match drx.recv().await {
+                        Some(DataChannelEvent::Message(m)) => return Ok(m.to_vec()),
+                        Some(_) => {}
+                        None => return Err("receiver channel closed".to_string()),
+                    }
+                }
+            })
+            .await;
+            match r {
+                Ok(Ok(m)) if m == msg => ctx.ev(&format!("dc in-band {tag} ok"), ""),
+                Ok(Ok(m)) => fail(format!("in-band data-channel message {tag} arrived altered ({} vs {} bytes)", m.len(), msg.len())),
+                Ok(Err(e)) => fail(format!("in-band data-channel exchange {tag}: {e}")),
+                Err(_) => fail(format!("in-band data-channel message {tag} (stream {}) did not arrive on a channel announced to {} within 60 s (announced streams: {:?})", dtx.id, peers[y].name, announced[y].lock().unwrap().iter().map(|d| d.id).collect::<Vec<_>>())),
+            }
+        }
+    }
+    for t in ev_tasks {
+        t.abort();
+    }
     // data channel: one message per direction, intact
-    if k.has_dc() {
+    if k.has_dc() && dc_inband == 0 {
         for (tx, rx, tag) in [(&a, &b, "A>B"), (&b, &a, "B>A")] {
             let (Some(dtx), Some(drx)) = (tx.dc.clone(), rx.dc.clone()) else {
                 fail("create_data_channel failed".into());
